@@ -3,7 +3,10 @@ package main
 import (
 	"context"
 	"os"
+	"strconv"
 	"strings"
+	"sync"
+	"sync/atomic"
 
 	"github.com/vx-labs/wasp/v4/wasp/auth"
 )
@@ -12,7 +15,10 @@ import (
 type authDomain struct {
 	file   auth.AuthenticationHandler
 	static auth.AuthenticationHandler
+	asked  []authAsk // every candidate put to the file store since it was loaded, with its answer
 }
+
+type authAsk struct{ user, pass, answer string }
 
 func init() {
 	domains["auth"] = func([]string) domain { return &authDomain{} }
@@ -30,6 +36,14 @@ func plainOf(s string) string {
 		return s[:i]
 	}
 	return s
+}
+
+func (d *authDomain) ask(user, pass string) string {
+	p, err := d.file.Authenticate(context.Background(), auth.ApplicationContext{Username: []byte(user), Password: []byte(pass)}, auth.TransportContext{})
+	if err != nil {
+		return "reject"
+	}
+	return "accept " + p.MountPoint
 }
 
 func (d *authDomain) step(f []string) string {
@@ -55,16 +69,44 @@ func (d *authDomain) step(f []string) string {
 			return "loaderr"
 		}
 		d.file = h
+		d.asked = nil
 		return "ok"
 	case len(f) == 3 && f[0] == "auth":
 		if d.file == nil {
 			return "nohandler"
 		}
-		p, err := d.file.Authenticate(context.Background(), auth.ApplicationContext{Username: []byte(un(plainOf(f[1]))), Password: []byte(un(plainOf(f[2])))}, auth.TransportContext{})
-		if err != nil {
-			return "reject"
+		res := d.ask(un(plainOf(f[1])), un(plainOf(f[2])))
+		d.asked = append(d.asked, authAsk{un(plainOf(f[1])), un(plainOf(f[2])), res})
+		return res
+	case len(f) == 2 && f[0] == "par":
+		// par <rounds>: the set-up workers share one store — every candidate asked so far is put to it again from 16
+		// goroutines at once; each answer must be the answer the store gave when asked alone
+		if d.file == nil {
+			return "nohandler"
 		}
-		return "accept " + p.MountPoint
+		var wrong int64
+		var wg sync.WaitGroup
+		for g := 0; g < 16; g++ {
+			wg.Add(1)
+			go func(g int) {
+				defer wg.Done()
+				defer func() {
+					if recover() != nil {
+						atomic.AddInt64(&wrong, 1)
+					}
+				}()
+				for r := 0; r < atoi(f[1]); r++ {
+					for i := range d.asked {
+						a := d.asked[(i+g)%len(d.asked)]
+						if d.ask(a.user, a.pass) != a.answer {
+							atomic.AddInt64(&wrong, 1)
+						}
+					}
+				}
+			}(g)
+		}
+		wg.Wait()
+		return "par-mismatch=" + strconv.FormatInt(wrong, 10)
 	case len(f) == 3 && f[0] == "static":
 		h, err := auth.StaticHandler(un(f[1]), un(f[2]))
 		if err != nil {
